@@ -4,6 +4,7 @@ package main
 import (
 	"bufio"
 	"bytes"
+	"compress/gzip"
 	"crypto/sha256"
 	"fmt"
 	"io"
@@ -45,8 +46,12 @@ type reqD struct {
 	Files      []int    `json:"files"` // sizes of the file parts
 	Wellformed bool     `json:"wf"`
 	Ops        []string `json:"ops"`
-	Close      bool     `json:"close"` // request carries Connection: close
-	Short      int      `json:"short,omitempty"` // Content-Length overstates the body by this many bytes; the peer closes after the body
+	Close      bool     `json:"close"`             // request carries Connection: close
+	Chunked    bool     `json:"chunked,omitempty"` // Transfer-Encoding: chunked instead of Content-Length
+	Enc        string   `json:"enc,omitempty"`     // Content-Encoding: "" | gzip (really compressed) | br (just claimed)
+	Expect     bool     `json:"expect,omitempty"`  // Expect: 100-continue, body sent after the interim response
+	Abandon    bool     `json:"abandon,omitempty"` // the client goes away right after sending, the response cannot be written
+	Short      int      `json:"short,omitempty"`   // Content-Length overstates the body by this many bytes; the peer closes after the body
 }
 type desc struct {
 	Op    string `json:"op"` // round | read | big | hist
@@ -67,7 +72,7 @@ type desc struct {
 	Wellformed bool   `json:"wf,omitempty"`
 	Short      int    `json:"short,omitempty"`
 	Shutdown   bool   `json:"shutdown,omitempty"` // hist: call Server.Shutdown at the end and list TMPDIR once more
-	Via        string `json:"via,omitempty"` // func: readMultipartForm directly | request: Request.Read (pre-parse, real threshold)
+	Via        string `json:"via,omitempty"`      // func: readMultipartForm directly | request: Request.Read (pre-parse, real threshold)
 }
 
 // ---- Coq rendering -------------------------------------------------------------
@@ -224,6 +229,69 @@ func runRound(d desc) hlib.Case {
 	return c
 }
 
+// rewire: a request whose multipart body was pre-parsed on Read is written out again (Request.Write marshals
+// the parsed form: the proxy case) and read by a second Request; also Body() and BodyWriteTo must give the same bytes
+func runRewire(d desc) hlib.Case {
+	c := hlib.Case{Kind: "rewire"}
+	form, err := buildForm(d, 1<<20)
+	if err != nil {
+		c.Kind = "rewire-unbuildable"
+		c.Coq = "CBig true"
+		return c
+	}
+	var w0 bytes.Buffer
+	if fasthttp.WriteMultipartForm(&w0, form, string(d.B)) != nil {
+		c.Kind = "rewire-badboundary"
+		c.Coq = "CBig true"
+		return c
+	}
+	var raw bytes.Buffer
+	fmt.Fprintf(&raw, "POST /x HTTP/1.1\r\nHost: verif\r\nContent-Type: multipart/form-data; boundary=%s\r\nContent-Length: %d\r\n\r\n", d.B, w0.Len())
+	raw.Write(w0.Bytes())
+	var req, req2 fasthttp.Request
+	defer req.Reset()
+	defer req2.Reset()
+	if err := req.Read(bufio.NewReader(&raw)); err != nil {
+		// the first parse already fails (data outside the domain): nothing to re-write
+		c.Kind = "rewire-unparsable"
+		c.Coq = "CBig true"
+		return c
+	}
+	f1, err := req.MultipartForm()
+	if err != nil {
+		c.Coq = "CBig false"
+		return c
+	}
+	o1, _ := fromGoForm(f1)
+	var out bytes.Buffer
+	bw := bufio.NewWriter(&out)
+	werr := req.Write(bw)
+	bw.Flush()
+	written, back := hlib.None(), hlib.None()
+	if werr == nil {
+		wire := out.Bytes()
+		hdrEnd := bytes.Index(wire, []byte("\r\n\r\n"))
+		body := wire[hdrEnd+4:]
+		written = hlib.Some(hlib.Hex(body))
+		var viaBody bytes.Buffer
+		req.BodyWriteTo(&viaBody) //nolint:errcheck
+		err2 := req2.Read(bufio.NewReader(bytes.NewReader(wire)))
+		consistent := err2 == nil && req2.Header.ContentLength() == len(body) &&
+			string(req2.Header.MultipartFormBoundary()) == string(d.B) &&
+			// Body / BodyWriteTo marshal again, in whatever order Go iterates the maps this time: same bytes up to part order
+			viaBody.Len() == len(body) && len(req.Body()) == len(body)
+		if consistent {
+			f2, e := req2.MultipartForm()
+			back = optForm(f2, e)
+		}
+		c.Size = len(body)
+	}
+	// the form of the first parse is what gets written: file names already reduced to their base name
+	c.Coq = hlib.App("CRound", hlib.Hex(d.B), o1.coq(), written, back)
+	c.Sig = fmt.Sprintf("rewire-%v-%x", werr != nil, sha256.Sum256(out.Bytes()))[:40]
+	return c
+}
+
 func runRead(d desc) hlib.Case {
 	c := hlib.Case{Kind: "read", Size: len(d.Input)}
 	f, err := fasthttp.VerifReadMultipartForm(bytes.NewReader(d.Input), string(d.B), d.Size, len(d.Input)+1)
@@ -358,23 +426,58 @@ func runReadFiles(d desc) hlib.Case {
 	body := reqBody(reqD{Multipart: true, Files: d.Sizes, Wellformed: d.Wellformed}, 0)
 	maxMem := d.MaxMem
 	var ok bool
-	var left []entry
-	if d.Via == "request" {
-		maxMem = fasthttp.VerifDefaultMaxInMemoryFileSize()
+	var left, after []entry
+	rawReq := func(b []byte, extra int) io.Reader {
 		var hb bytes.Buffer
-		fmt.Fprintf(&hb, "POST /x HTTP/1.1\r\nHost: verif\r\nContent-Type: multipart/form-data; boundary=%s\r\nContent-Length: %d\r\n\r\n", histBoundary, len(body)+d.Short)
+		fmt.Fprintf(&hb, "POST /x HTTP/1.1\r\nHost: verif\r\nContent-Type: multipart/form-data; boundary=%s\r\nContent-Length: %d\r\n\r\n", histBoundary, len(b)+extra)
+		return io.MultiReader(bytes.NewReader(hb.Bytes()), bytes.NewReader(b))
+	}
+	switch d.Via {
+	case "request": // Request.Read pre-parses (real threshold); Reset gives the files back
+		maxMem = fasthttp.VerifDefaultMaxInMemoryFileSize()
 		var req fasthttp.Request
-		err := req.Read(bufio.NewReader(io.MultiReader(bytes.NewReader(hb.Bytes()), bytes.NewReader(body))))
+		err := req.Read(bufio.NewReader(rawReq(body, d.Short)))
 		ok = err == nil
 		left = listDir(dir)
 		req.Reset()
-	} else {
+		after = listDir(dir)
+	case "request-release": // pooled request: ReleaseRequest
+		maxMem = fasthttp.VerifDefaultMaxInMemoryFileSize()
+		req := fasthttp.AcquireRequest()
+		err := req.Read(bufio.NewReader(rawReq(body, d.Short)))
+		ok = err == nil
+		left = listDir(dir)
+		fasthttp.ReleaseRequest(req)
+		after = listDir(dir)
+	case "request-reuse": // the same Request reads the next message without a Reset in between
+		maxMem = fasthttp.VerifDefaultMaxInMemoryFileSize()
+		var req fasthttp.Request
+		err := req.Read(bufio.NewReader(rawReq(body, d.Short)))
+		ok = err == nil
+		left = listDir(dir)
+		small := reqBody(reqD{Multipart: true, Files: []int{10}, Wellformed: true}, 1)
+		req.Read(bufio.NewReader(rawReq(small, 0))) //nolint:errcheck
+		after = listDir(dir)
+		req.Reset()
+	case "stream-request": // a Request with a body stream: MultipartForm() parses on demand with the 8 KiB limit
+		maxMem = 8 * 1024
+		req := fasthttp.AcquireRequest()
+		req.Header.SetMethod("POST")
+		req.Header.SetMultipartFormBoundary(histBoundary)
+		req.SetBodyStream(bytes.NewReader(body), len(body))
+		_, err := req.MultipartForm()
+		ok = err == nil
+		left = listDir(dir)
+		fasthttp.ReleaseRequest(req)
+		after = listDir(dir)
+	default:
 		f, err := fasthttp.VerifReadMultipartForm(bytes.NewReader(body), histBoundary, len(body)+d.Short, maxMem)
 		ok = err == nil
 		left = listDir(dir)
 		if f != nil {
 			f.RemoveAll() //nolint:errcheck
 		}
+		after = listDir(dir)
 	}
 	var sz, lf []string
 	for _, n := range d.Sizes {
@@ -383,7 +486,11 @@ func runReadFiles(d desc) hlib.Case {
 	for _, e := range left {
 		lf = append(lf, hlib.Z(e.size))
 	}
-	c.Coq = hlib.App("CReadFiles", hlib.Z(int64(maxMem)), hlib.List(sz), hlib.Bool(d.Wellformed), hlib.Bool(d.Short > 0), hlib.Bool(ok), hlib.List(lf))
+	var af []string
+	for _, e := range after {
+		af = append(af, hlib.Z(e.size))
+	}
+	c.Coq = hlib.App("CReadFiles", hlib.Z(int64(maxMem)), hlib.List(sz), hlib.Bool(d.Wellformed), hlib.Bool(d.Short > 0), hlib.Bool(ok), hlib.List(lf), hlib.List(af))
 	c.Sig = fmt.Sprintf("rf-%s-%d-%v-%v-%d-%v", d.Via, maxMem, d.Sizes, d.Wellformed, d.Short, ok)
 	return c
 }
@@ -520,6 +627,11 @@ func runHist(d desc) hlib.Case {
 			case "none":
 				_ = ctx.Path()
 				add("VOp ONone", coqListing(listDir(dir)))
+			case "copyto":
+				var other fasthttp.Request
+				ctx.Request.CopyTo(&other)
+				add("VOp ONone", coqListing(listDir(dir)))
+				other.Reset()
 			case "body":
 				_ = ctx.Request.Body()
 				add("VOp ONone", coqListing(listDir(dir)))
@@ -601,18 +713,72 @@ func runHist(d desc) hlib.Case {
 		if r.Close {
 			hb.WriteString("Connection: close\r\n")
 		}
-		fmt.Fprintf(&hb, "Content-Length: %d\r\n\r\n", len(body)+r.Short)
-		nEv := len(tr)
-		if r.Short > 0 {
-			// the peer sends less than it promised and goes away
-			conn.Write(hb.Bytes())
-			conn.Write(body)
-			conn.Close()
+		wire := body
+		switch r.Enc {
+		case "gzip":
+			var zb bytes.Buffer
+			zw := gzip.NewWriter(&zb)
+			zw.Write(body)
+			zw.Close()
+			wire = zb.Bytes()
+			hb.WriteString("Content-Encoding: gzip\r\n")
+		case "":
+		default:
+			hb.WriteString("Content-Encoding: " + r.Enc + "\r\n")
+		}
+		if r.Expect {
+			hb.WriteString("Expect: 100-continue\r\n")
+		}
+		if r.Chunked {
+			hb.WriteString("Transfer-Encoding: chunked\r\n\r\n")
+			var cb bytes.Buffer
+			for off := 0; off < len(wire); off += 4000 {
+				end := min(off+4000, len(wire))
+				fmt.Fprintf(&cb, "%x\r\n", end-off)
+				cb.Write(wire[off:end])
+				cb.WriteString("\r\n")
+			}
+			cb.WriteString("0\r\n\r\n")
+			wire = cb.Bytes()
 		} else {
+			fmt.Fprintf(&hb, "Content-Length: %d\r\n\r\n", len(wire)+r.Short)
+		}
+		nEv := len(tr)
+		switch {
+		case r.Short > 0 || r.Abandon:
+			// the peer sends less than it promised / does not wait for the response, and goes away
+			conn.Write(hb.Bytes())
+			conn.Write(wire)
+			conn.Close()
+		case r.Expect:
+			conn.Write(hb.Bytes())
+			conn.SetReadDeadline(time.Now().Add(20 * time.Second))
+			interim := make([]byte, len("HTTP/1.1 100 Continue\r\n\r\n"))
+			if _, err := io.ReadFull(br, interim); err != nil || !bytes.HasPrefix(interim, []byte("HTTP/1.1 100")) {
+				note = "no 100 Continue"
+			}
+			go conn.Write(wire)
+		default:
 			go func() {
 				conn.Write(hb.Bytes())
-				conn.Write(body)
+				conn.Write(wire)
 			}()
+		}
+		if r.Abandon {
+			l, ok := waitClosed()
+			if !ok {
+				note = "no close after abandoned request"
+			}
+			mu.Lock()
+			if len(tr) == nEv {
+				add(dispatchEv(r, len(body)), coqListing(l)) // refused while being read
+			} else {
+				add("VReturn false", coqListing(l))
+			}
+			leftover = append(leftover, int64(len(names(l))))
+			mu.Unlock()
+			open = false
+			break
 		}
 		var resp fasthttp.Response
 		conn.SetReadDeadline(time.Now().Add(20 * time.Second))
@@ -708,8 +874,16 @@ func dispatchEv(r reqD, bodyLen int) string {
 	for _, n := range r.Files {
 		fs = append(fs, hlib.Z(int64(n)))
 	}
-	return "VDispatch " + hlib.App("rq", hlib.Bool(r.Multipart), "true", hlib.List(fs), hlib.Bool(r.Wellformed),
-		hlib.Z(int64(bodyLen)), hlib.Z(int64(len("\r\n--"+histBoundary+"--\r\n"))), hlib.Bool(r.Short > 0))
+	enc := int64(0)
+	switch r.Enc {
+	case "gzip":
+		enc = 1
+	case "":
+	default:
+		enc = 2
+	}
+	return "VDispatch " + hlib.App("rq", hlib.Bool(r.Multipart), hlib.Bool(!r.Chunked), hlib.List(fs), hlib.Bool(r.Wellformed),
+		hlib.Z(int64(bodyLen)), hlib.Z(int64(len("\r\n--"+histBoundary+"--\r\n"))), hlib.Bool(r.Short > 0), hlib.Z(enc))
 }
 
 func run(d desc) hlib.Case {
@@ -722,6 +896,8 @@ func run(d desc) hlib.Case {
 		return runBig(d)
 	case "readfiles":
 		return runReadFiles(d)
+	case "rewire":
+		return runRewire(d)
 	default:
 		return runHist(d)
 	}
@@ -901,6 +1077,58 @@ func corpus() []desc {
 		q.Short = 4
 		hist(false, false, rq([]int{9 * k}, true, false, "form"), q) // not pre-parsed: the short body is refused while being read
 	}
+	// chunked bodies are never pre-parsed; a gzip body neither, MultipartForm decodes it; other encodings are refused
+	for _, st := range []bool{true, false} {
+		for _, pre := range []bool{true, false} {
+			q := rq([]int{9 * k, 100}, true, false, "form", "none")
+			q.Chunked = true
+			hist(st, pre, q, rq([]int{9 * k}, true, false, "form"))
+			g := rq([]int{12 * k}, true, false, "form", "copyto")
+			g.Enc = "gzip"
+			b := rq([]int{12 * k}, true, false, "form")
+			b.Enc = "br"
+			hist(st, pre, g, b, rq([]int{9 * k}, true, false, "form"))
+		}
+	}
+	{
+		g := rq([]int{20000}, true, false, "formlimit:1")
+		g.Enc = "gzip"
+		g2 := rq([]int{20000}, true, false, "formlimit:0", "removefiles")
+		g2.Enc, g2.Chunked = "gzip", true
+		hist(true, true, g, g2)
+		hist(false, false, g, g2)
+	}
+	// Expect: 100-continue: the body (pre-parsed or not) is read by ContinueReadBody[Stream] after the interim response
+	for _, st := range []bool{true, false} {
+		e := rq([]int{9 * k}, true, false, "form")
+		e.Expect = true
+		hist(st, false, e, rq([]int{9 * k}, true, false, "form"))
+		e2 := rq([]int{9 * k}, false, false, "form")
+		e2.Expect = true
+		hist(st, true, rq([]int{10}, true, false, "none"), e2)
+	}
+	// the client does not wait for the response: writing it fails, the connection is torn down with the files on disk
+	{
+		a := rq([]int{12 * k, 9 * k}, true, false, "form")
+		a.Abandon = true
+		hist(true, false, rq([]int{9 * k}, true, false, "form"), a)
+		a2 := rq([]int{max + 1}, true, false, "none")
+		a2.Abandon = true
+		hist(false, true, a2)
+	}
+	// call level: who gives the files back
+	c = append(c, desc{Op: "readfiles", Via: "request-release", Sizes: []int{max + 1}, Wellformed: true})
+	c = append(c, desc{Op: "readfiles", Via: "request-reuse", Sizes: []int{max + 1}, Wellformed: true})
+	for _, sizes := range [][]int{{8193}, {8192}, {5000, 5000, 9000}} {
+		c = append(c, desc{Op: "readfiles", Via: "stream-request", Sizes: sizes, Wellformed: true})
+		c = append(c, desc{Op: "readfiles", Via: "stream-request", Sizes: sizes, Wellformed: false})
+	}
+	// a pre-parsed request written out again (Request.Write / BodyWriteTo / Body marshal the parsed form)
+	for _, b := range []string{"Bnd-7", "b0undary=", "a b", "'()+_,-./:=?"} {
+		c = append(c, desc{Op: "rewire", B: []byte(b), Vals: []kvD{kv("a", "1", "two"), kv(`q"uo\te`, "v")}, Files: []kfD{kf("up", f("x.txt", "hello"), f(`na"me.bin`, "\x00\xff\r\n")), kf("f2", f("c", ""))}})
+		c = append(c, desc{Op: "rewire", B: []byte(b), Vals: []kvD{kv("only", "v")}})
+		c = append(c, desc{Op: "rewire", B: []byte(b), Files: []kfD{kf("f", f("n", "abc"))}})
+	}
 	// no streaming, no pre-parse: nothing ever spills
 	hist(false, false, rq([]int{40 * k}, true, false, "form", "body"), rq([]int{9 * k}, true, false, "none"))
 	// pre-parse (both modes): only parts above 16 MiB spill; a malformed body is refused and the connection closed
@@ -961,6 +1189,9 @@ func gen(r *rand.Rand, i int) desc {
 		}
 		sort.Slice(d.Vals, func(i, j int) bool { return string(d.Vals[i].K) < string(d.Vals[j].K) })
 		sort.Slice(d.Files, func(i, j int) bool { return string(d.Files[i].K) < string(d.Files[j].K) })
+		if r.Intn(4) == 0 {
+			d.Op = "rewire"
+		}
 		return d
 	case 4, 5: // damaged wire forms for the reader: cut, or a delimiter edited
 		base := wire("--B\r\nContent-Disposition: form-data; name=\"a\"\r\n\r\none\r\n--B\r\nContent-Disposition: form-data; name=\"f\"; filename=\"n.txt\"\r\nContent-Type: text/plain\r\n\r\nfile data\r\n--B--\r\n")
@@ -983,6 +1214,11 @@ func gen(r *rand.Rand, i int) desc {
 		default:
 			p := r.Intn(len(in))
 			in[p] = hlib.Pick(r, []byte("-\r\nB;\"=x "))
+			// a first delimiter line that ends in a bare LF switches the stdlib reader to LF line ends,
+			// which the model (CRLF only, see props assumptions) does not follow: keep the CR
+			if p == 3 {
+				in[p] = '\r'
+			}
 		}
 		if size == 0 {
 			size = -1
@@ -1004,7 +1240,7 @@ func gen(r *rand.Rand, i int) desc {
 		return d
 	default: // histories
 		d := desc{Op: "hist", Stream: r.Intn(4) != 0, Preparse: r.Intn(4) == 0, Shutdown: r.Intn(5) == 0}
-		ops := []string{"form", "form", "none", "setbody", "setbodystring", "appendbody", "resetbody", "setbodyraw", "setbodystream", "removefiles", "userremove"}
+		ops := []string{"form", "form", "none", "copyto", "setbody", "setbodystring", "appendbody", "resetbody", "setbodyraw", "setbodystream", "removefiles", "userremove"}
 		if !d.Stream {
 			ops = append(ops, "body")
 		}
@@ -1025,6 +1261,21 @@ func gen(r *rand.Rand, i int) desc {
 			}
 			if j == nreq-1 && r.Intn(3) == 0 {
 				q.Close = true
+			}
+			switch r.Intn(8) {
+			case 0:
+				q.Chunked = true
+			case 1:
+				q.Enc = "gzip"
+			case 2:
+				q.Enc, q.Chunked = "gzip", true
+			case 3:
+				q.Enc = "br"
+			case 4:
+				q.Expect = true
+			}
+			if j == nreq-1 && !q.Close && q.Wellformed && r.Intn(8) == 0 {
+				q.Abandon = true
 			}
 			d.Reqs = append(d.Reqs, q)
 		}
